@@ -8,42 +8,47 @@
 (* Runner: for each script step it writes the event PREFIX, performs the    *)
 (* call, writes the RESULT.  Orchestrator: when the runner dies it          *)
 (* completes the dangling prefix with an `abort` result and restarts the    *)
-(* runner AFTER that step; steps of an iterator session that lost its       *)
-(* iterator are skipped until the next session begins.                      *)
+(* runner AFTER that step; operations on an iterator SLOT that has no        *)
+(* iterator (never constructed, or it died with the process) are skipped    *)
+(* until a constructor fills that slot again.  Pure calls do not touch the  *)
+(* slots (several iterators stay alive across them).                        *)
 (*                                                                         *)
 (* Checked for every script of N steps and every set of fatal steps:        *)
 (*   - the final trace has no dangling prefix                                *)
 (*   - events appear in script order, at most one per step (no call is       *)
 (*     executed twice, none is recorded twice)                               *)
 (*   - every fatal step that was reached has exactly one event, `abort`      *)
-(*   - a step has no event only if it belongs to a session whose iterator    *)
-(*     was lost earlier                                                      *)
+(*   - a step has no event only if it is an operation on a slot whose        *)
+(*     iterator was lost earlier                                             *)
 (*   - the protocol terminates                                               *)
 (***************************************************************************)
 EXTENDS Integers, Sequences, FiniteSets, TLC
-CONSTANTS N          \* number of script steps
+CONSTANTS N,         \* number of script steps
+          NS         \* number of iterator slots
 
-Kinds == {"call", "new", "op"}           \* pure call / start of an iterator session / operation on the current iterator
+Slot == 1..NS
+\* pure call / constructor into a slot / operation on the iterator of a slot
+Kinds == {[t |-> "call", slot |-> 0]} \cup {[t |-> "new", slot |-> s] : s \in Slot} \cup {[t |-> "op", slot |-> s] : s \in Slot}
 VARIABLES kind,      \* step -> kind (chosen initially: every script)
           fatal,     \* set of steps at which the code under test kills the process
           pc,        \* "run" | "dead" | "done"
           pos,       \* next step of the runner
           resume,    \* first step the (re)started runner executes
-          lost,      \* the current session has no iterator (died / skipped): its ops are not executed
+          lost,      \* the slots that have no iterator (never filled / died with the process): ops on them are not executed
           trace      \* sequence of [step, res] ; res \in {"pending", "ok", "abort"}
 vars == <<kind, fatal, pc, pos, resume, lost, trace>>
 
 Init == /\ kind \in [1..N -> Kinds] /\ fatal \in SUBSET (1..N)
-        /\ pc = "run" /\ pos = 1 /\ resume = 1 /\ lost = TRUE /\ trace = <<>>
+        /\ pc = "run" /\ pos = 1 /\ resume = 1 /\ lost = Slot /\ trace = <<>>
 
-Skippable(i) == kind[i] = "op" /\ lost
+Skippable(i) == kind[i].t = "op" /\ kind[i].slot \in lost
 \* the runner executes step pos: prefix, call, result -- or dies inside the call
 Exec == /\ pc = "run" /\ pos <= N /\ ~Skippable(pos)
         /\ IF pos \in fatal
            THEN /\ trace' = Append(trace, [step |-> pos, res |-> "pending"])      \* prefix written, process gone
                 /\ pc' = "dead" /\ UNCHANGED <<pos, lost>>
            ELSE /\ trace' = Append(trace, [step |-> pos, res |-> "ok"])
-                /\ lost' = IF kind[pos] = "new" THEN FALSE ELSE IF kind[pos] = "call" THEN TRUE ELSE lost
+                /\ lost' = IF kind[pos].t = "new" THEN lost \ {kind[pos].slot} ELSE lost
                 /\ pos' = pos + 1 /\ pc' = pc
         /\ UNCHANGED <<kind, fatal, resume>>
 Skip == /\ pc = "run" /\ pos <= N /\ Skippable(pos)
@@ -54,7 +59,7 @@ Recover == /\ pc = "dead"
            /\ trace' = [trace EXCEPT ![Len(trace)].res = "abort"]
            /\ resume' = trace[Len(trace)].step + 1
            /\ pos' = trace[Len(trace)].step + 1
-           /\ lost' = TRUE                 \* whatever iterator existed died with the process
+           /\ lost' = Slot                 \* whatever iterators existed died with the process
            /\ pc' = "run" /\ UNCHANGED <<kind, fatal>>
 Next == Exec \/ Skip \/ Finish \/ Recover \/ (pc = "done" /\ UNCHANGED vars)
 Spec == Init /\ [][Next]_vars /\ WF_vars(Next)
@@ -65,13 +70,14 @@ InOrderOnce == \A i, j \in 1..Len(trace) : i < j => trace[i].step < trace[j].ste
 NoDanglingAtEnd == pc = "done" => \A i \in 1..Len(trace) : trace[i].res # "pending"
 FatalIsAbort == pc = "done" => \A i \in 1..Len(trace) : (trace[i].res = "abort") <=> (trace[i].step \in fatal)
 \* a step without an event is an op of a session that had already lost its iterator
-RECURSIVE LostBefore(_)
-LostBefore(i) == \* is the session of op i without an iterator when i is reached (per the script and the fatal set)?
+RECURSIVE LostBefore(_, _)
+LostBefore(i, s) == \* is slot s without an iterator when step i is reached (per the script and the fatal set)?
   IF i = 1 THEN TRUE
-  ELSE LET p == i - 1 IN
-       IF kind[p] = "call" THEN TRUE
-       ELSE IF kind[p] = "new" THEN p \in fatal
-       ELSE IF p \in fatal /\ ~LostBefore(p) THEN TRUE ELSE LostBefore(p)
-Complete == pc = "done" => \A i \in 1..N : (i \notin Steps) <=> (kind[i] = "op" /\ LostBefore(i))
+  ELSE LET p == i - 1
+           executed == ~(kind[p].t = "op" /\ LostBefore(p, kind[p].slot))
+       IN IF executed /\ p \in fatal THEN TRUE                    \* the process died at p: every slot is empty
+          ELSE IF kind[p].t = "new" /\ kind[p].slot = s THEN FALSE
+          ELSE LostBefore(p, s)
+Complete == pc = "done" => \A i \in 1..N : (i \notin Steps) <=> (kind[i].t = "op" /\ LostBefore(i, kind[i].slot))
 Terminates == <>(pc = "done")
 =============================================================================
